@@ -26,14 +26,27 @@ pub fn cli_path() -> String {
 }
 
 pub fn run_cli(args: &[String], stdin: Option<&[u8]>, timeout_s: u64) -> CliOut {
+    run_program(&cli_path(), &[], args, stdin, timeout_s)
+}
+
+/// the same command line through the Python package's entry point (py/entry.py -> pykmertools.run_cli)
+pub fn run_py_entry(args: &[String], stdin: Option<&[u8]>, timeout_s: u64) -> CliOut {
+    let script = format!("{}/py/entry.py", crate::verif_root());
+    run_program("python3-vt", &[script], args, stdin, timeout_s)
+}
+
+pub fn run_program(program: &str, pre: &[String], args: &[String], stdin: Option<&[u8]>, timeout_s: u64) -> CliOut {
     use std::os::unix::process::ExitStatusExt;
-    let mut cmd = Command::new(cli_path());
-    cmd.args(args)
+    let mut cmd = Command::new(program);
+    cmd.args(pre)
+        .args(args)
+        .env("VERIF_PYDIR", std::env::var("VERIF_PYDIR").unwrap_or_else(|_| format!("{}/.build/py", crate::verif_root())))
+        .env("PYTHONDONTWRITEBYTECODE", "1")
         .env("RUST_BACKTRACE", "0")
         .stdin(if stdin.is_some() { Stdio::piped() } else { Stdio::null() })
         .stdout(Stdio::piped())
         .stderr(Stdio::piped());
-    let mut child = cmd.spawn().expect("cannot start the kmertools executable (VERIF_CLI)");
+    let mut child = cmd.spawn().expect("cannot start the program under test (VERIF_CLI / python3-vt)");
     let mut si = child.stdin.take();
     let data = stdin.map(|d| d.to_vec());
     let writer = std::thread::spawn(move || {
